@@ -1129,6 +1129,60 @@ func genC07Targeted(g *Gen, tier string, w *bufio.Writer, begin string) {
 		fmt.Fprintln(w, "hcount c")
 		fmt.Fprintln(w, "obs r")
 	}
+	// a fresh Copy() / Get() / iterator element of a hashed view shares its hashed backing: the
+	// count is taken WITHOUT a warm-up root request on the new view object, and binding such a view
+	// elsewhere costs the path only
+	un := &Ty{Kind: KUnion, Fields: []*Ty{u64, inner}}
+	unN := &Ty{Kind: KUnion, HasNone: true, Fields: []*Ty{inner}}
+	for _, ft := range []*Ty{
+		{Kind: KContainer, Fields: []*Ty{u64, la, un, u64, {Kind: KVector, N: 4, Elem: inner}, u64, u64, unN}},
+		{Kind: KList, N: 8, Elem: un},
+		{Kind: KVector, N: 4, Elem: &Ty{Kind: KContainer, Fields: []*Ty{un, u64, unN}}},
+		{Kind: KList, N: 16, Elem: &Ty{Kind: KContainer, Fields: []*Ty{u64, u64, u64, u64, u64, u64, u64, u64}}},
+		outer,
+	} {
+		for rep := 0; rep < 3; rep++ {
+			v := g.RandVal(ft, 60)
+			n := 0
+			if ft.Kind == KList {
+				for len(v.Seq) < 3 {
+					v.Seq = append(v.Seq, g.RandVal(ft.Elem, 8))
+				}
+				if uint64(len(v.Seq)) >= ft.N {
+					v.Seq = v.Seq[:ft.N-1]
+				}
+				n = len(v.Seq)
+			} else if ft.Kind == KVector {
+				n = int(ft.N)
+			} else {
+				n = len(ft.Fields)
+			}
+			fmt.Fprintln(w, begin)
+			fmt.Fprintf(w, "mk r %s %s %s\n", []string{"new", "dec"}[rep%2], ft, v)
+			fmt.Fprintln(w, "hcount r")
+			fmt.Fprintln(w, "copy c r")
+			fmt.Fprintln(w, "hcount c")
+			for i := 0; i < n && i < 8; i++ {
+				fmt.Fprintf(w, "get s%d r %d\n", i, i)
+				fmt.Fprintf(w, "hcount s%d\n", i)
+				fmt.Fprintf(w, "copy k%d s%d\n", i, i)
+				fmt.Fprintf(w, "hcount k%d\n", i)
+			}
+			if ft.Kind == KList || ft.Kind == KVector {
+				fmt.Fprintf(w, "get x r %d\n", n-1)
+				fmt.Fprintln(w, "setv r 0 x") // list.Set(0, list.Get(n-1)) without touching x in between
+				fmt.Fprintln(w, "hcount r")
+				fmt.Fprintln(w, "get y r 1")
+				fmt.Fprintln(w, "copy z y")
+				if ft.Kind == KList {
+					fmt.Fprintln(w, "appv r z") // list.Append(elem.Copy())
+				} else {
+					fmt.Fprintln(w, "setv r 2 z")
+				}
+				fmt.Fprintln(w, "hcount r")
+			}
+		}
+	}
 	// default vectors of composites (all slots share one node): a write through a sub-view
 	dv := &Ty{Kind: KVector, N: 4, Elem: inner}
 	for rep := 0; rep < 3; rep++ {
